@@ -32,6 +32,8 @@ pub enum H {
     Auto { stride: u64, max_new: u32, dry: bool },
     Sched { stride: u64, max_new: u32, block: bool, execute: bool, dry: bool },
     SpawnJobOnly { stride: u64 },
+    /// run the oldest job that was spawned by `SpawnJobOnly` and not run yet (jobs may overlap)
+    RunOldestJob,
     Branch(u8),
     Handoff(u8),
     Restart,
@@ -53,6 +55,7 @@ pub fn name(op: &H) -> String {
         H::Auto { stride, max_new, dry } => format!("auto(s={stride},n={max_new},dry={dry})"),
         H::Sched { stride, max_new, block, execute, dry } => format!("sched(s={stride},n={max_new},block={block},exec={execute},dry={dry})"),
         H::SpawnJobOnly { stride } => format!("spawn_job_only(s={stride})"),
+        H::RunOldestJob => "run_oldest_job".into(),
         H::Branch(k) => format!("branch{k}"),
         H::Handoff(k) => format!("handoff{k}"),
         H::Restart => "restart".into(),
@@ -69,11 +72,13 @@ pub struct Track {
     pub sessions: Vec<String>,
     pub children: Vec<String>,
     pub live_session_frames: Vec<(String, Vec<Event>)>,
+    /// spawned-not-run compaction jobs (responses of the spawn half)
+    pub pending_jobs: Vec<ripd::CompactionAutoV1Response>,
 }
 
 impl Track {
     pub fn new(thread: String) -> Self {
-        Self { thread, n: 0, last_msg: None, last_sess: "sess-none".into(), open_runs: vec![], sessions: vec![], children: vec![], live_session_frames: vec![] }
+        Self { thread, n: 0, last_msg: None, last_sess: "sess-none".into(), open_runs: vec![], sessions: vec![], children: vec![], live_session_frames: vec![], pending_jobs: vec![] }
     }
 }
 
@@ -186,7 +191,19 @@ pub fn apply(fx: &mut Fx, t: &mut Track, op: &H) -> Value {
             }
             H::SpawnJobOnly { stride } => {
                 let r = store.verif_compaction_auto_spawn_job(&thread, CompactionAutoV1Request { stride_messages: Some(*stride), max_new_checkpoints: Some(1), dry_run: Some(false), actor_id: "u".into(), origin: "o".into() })?;
-                Ok(serde_json::to_value(r).unwrap_or(Value::Null))
+                let v = serde_json::to_value(&r).unwrap_or(Value::Null);
+                if r.job_id.is_some() {
+                    t.pending_jobs.push(r);
+                }
+                Ok(v)
+            }
+            H::RunOldestJob => {
+                if t.pending_jobs.is_empty() {
+                    return Ok(json!({"skipped": "no spawned job"}));
+                }
+                let job = t.pending_jobs.remove(0);
+                let created = store.verif_compaction_auto_run_spawned_job(&thread, &job)?;
+                Ok(json!({"job_id": job.job_id, "created": serde_json::to_value(created).unwrap_or(Value::Null)}))
             }
             H::Branch(k) => {
                 let events = thread_events(fx, &thread);
